@@ -146,7 +146,13 @@ Definition run_sexp (spec : bool) (e : sexp) : sexp :=
 
 Definition run_line (l : list N) : list N :=
   match parse l with
-  | Some (SList [k; e]) => if atom_is "spec" k then print (run_sexp true e) else print (run_sexp false (SList [k; e]))
+  | Some (SList [k; e]) =>
+      if atom_is "spec" k then print (run_sexp true e)
+      else if atom_is "both" k then
+        (* model verdict and property verdict in one pass: ok | (both <model verdict> <spec verdict>) *)
+        let m := run_sexp false e in let s := run_sexp true e in
+        if atom_is "ok" m && atom_is "ok" s then print (A "ok") else print (SList [A "both"; m; s])
+      else print (run_sexp false (SList [k; e]))
   | Some e => print (run_sexp false e)
   | None => codes "unparsable"
   end.
